@@ -227,7 +227,7 @@ def max_abs(X):
 # ---- index / container variants (C05, C10, C11) -------------------------------------
 
 INDEX_KINDS = ["range0", "range_offset", "range_step", "datetime_D", "datetime_h", "period_M",
-               "period_D"]
+               "period_D", "datetime_B", "datetime_MS"]  # B / MS: calendar frequencies (business days, month starts), unequal spacing in time
 # time indexes in which one label occurs twice (hourly wall-clock stamps over the end of daylight saving, several
 # readings per period): monotone, accepted by the library's validation, handled purely by position
 REPEAT_INDEX_KINDS = ["datetime_repeat", "period_repeat"]
@@ -276,10 +276,9 @@ def _build_index(spec, n):
         return pd.RangeIndex(spec["start"], spec["start"] + n)
     if k == "range_step":
         return pd.RangeIndex(spec["start"], spec["start"] + spec["step"] * n, spec["step"])
-    if k == "datetime_D":
-        return pd.date_range(spec["start"], periods=n, freq="D")
-    if k == "datetime_h":
-        return pd.date_range(spec["start"], periods=n, freq="h")
+    if k in ("datetime_D", "datetime_h", "datetime_B", "datetime_MS"):
+        # `unit`: the resolution the stamps are stored in (ns is the pandas default; s / ms / us come from date_range(unit=), parquet, SQL)
+        return pd.date_range(spec["start"], periods=n, freq=k.split("_")[1], unit=spec.get("unit", "ns"))
     if k == "period_M":
         return pd.period_range(spec["start"], periods=n, freq="M")
     if k == "period_D":
